@@ -86,8 +86,10 @@ inductive VErr where
   | equivocation
 deriving DecidableEq, Repr
 
-/-- `ValidatedShred::try_new(shred, cached_commitment, pk)` -/
-def validate (env : Env) (s : Shred) (cached : Option Commitment) (pk : Nat) : Except VErr VShred :=
+/-- `ValidatedShred::try_new(shred, cached_commitment, pk)` of the pinned snapshot: the root is derived with
+    `derive_root`, which ignores the index bits above the path length (defect D32: under a signed tree of height
+    `h < 6` the shred at `j` is also accepted as `j + k * 2^h`). Kept for the witness theorem. -/
+def validateOld (env : Env) (s : Shred) (cached : Option Commitment) (pk : Nat) : Except VErr VShred :=
   let root := s.sliceRoot env
   let msg := commit s.header root
   match cached with
@@ -97,6 +99,15 @@ def validate (env : Env) (s : Shred) (cached : Option Commitment) (pk : Nat) : E
     else .error .invalidSignature
   | none =>
     if s.sig.verify msg pk then .ok ⟨s, root⟩ else .error .invalidSignature
+
+/-- the Merkle path consumes the whole index: `index >> path.len() == 0` -/
+def Shred.indexConsumed (s : Shred) : Bool := decide (s.index / 2 ^ s.path.length = 0)
+
+/-- `ValidatedShred::try_new(shred, cached_commitment, pk)` (after the D32 `fix:`): a shred whose index is not
+    fully consumed by its Merkle path is refused as `InvalidSignature` before the cache shortcut and the
+    signature check. -/
+def validate (env : Env) (s : Shred) (cached : Option Commitment) (pk : Nat) : Except VErr VShred :=
+  if !s.indexConsumed then .error .invalidSignature else validateOld env s cached pk
 
 /-! ### slices and their payload bytes (wincode, fixed-width little endian integers) -/
 
